@@ -761,24 +761,6 @@ Definition relation_add_profile_v (v : variant) (r : nat) (g : list profile) : M
   if fx_in_place v then m_insert_fresh r idx [t_space; profiles_node g]
   else reroot r true (set_children (insert_at idx [t_space; profiles_node g] cs) t).
 
-(* the same two as the code was before proposed_fixes/C11-10 (re-building and re-rooting): the
-   resulting tree is the same; kept under their old names because model/RelConv.v (C14) builds
-   From<lossy::Relation> with them *)
-Definition relation_set_architectures (r : nat) (archs : list str) : M unit :=
-  h <- get_reg r ;; t <- node_of h ;;
-  let cs := children t in
-  match find_index (node_is ARCHITECTURES) cs with
-  | Some i => splice_new r i (S i) (architectures_node archs)
-  | None =>
-    let idx := architectures_pos cs in
-    reroot r true (set_children (insert_at idx [t_space; architectures_node archs] cs) t)
-  end.
-Definition relation_add_profile (r : nat) (g : list profile) : M unit :=
-  h <- get_reg r ;; t <- node_of h ;;
-  let cs := children t in
-  let idx := match last_index (node_is PROFILES) cs with Some i => S i | None => length cs end in
-  reroot r true (set_children (insert_at idx [t_space; profiles_node g] cs) t).
-
 (* ------------------------------------------------------------------ building operands *)
 Inductive relspec : Type :=
 | RSParse (s : str)                                   (* s.parse::<Relation>() *)
@@ -838,19 +820,6 @@ Definition builder_build_v (v : variant) (dst : nat) (name : str) (ver : verspec
   (match q with Some q => relation_set_archqual dst q | None => ret tt end) ;;
   (match archs with Some a => relation_set_architectures_v v dst a | None => ret tt end) ;;
   add_profiles_v v dst profs.
-(* with the re-rooting versions (see above; used by model/RelConv.v) *)
-Fixpoint add_profiles (r : nat) (gs : list (list profile)) : M unit :=
-  match gs with
-  | [] => ret tt
-  | g :: rest => relation_add_profile r g ;; add_profiles r rest
-  end.
-Definition builder_build (dst : nat) (name : str) (ver : verspec) (q : option str)
-           (archs : option (list str)) (profs : list (list profile)) : M unit :=
-  h <- alloc true (relation_new name ver) ;; set_reg dst (Some h) ;;
-  (match q with Some q => relation_set_archqual dst q | None => ret tt end) ;;
-  (match archs with Some a => relation_set_architectures dst a | None => ret tt end) ;;
-  add_profiles dst profs.
-
 Definition build_relation (v : variant) (dst : nat) (sp : relspec) : M unit :=
   match sp with
   | RSParse s => relation_parse dst s
